@@ -74,3 +74,27 @@ Print Assumptions C17_reconstructs.
     pretty_call's own (ctx, fn) parameters: no field name can collide *)
 Theorem C17_no_reserved_names : dc_call_form = "alt"%string /\ attrs_call_form = "alt"%string.
 Proof. split; reflexivity. Qed.
+
+(** End to end at the engine level (Proofs/StrBridge.v, EndToEnd.v): the stream
+    the model of the layout engine emits for a pretty_call object glues to the
+    tokens of an expression that evaluates to THAT call - same callable, the
+    positional arguments in order, the keyword arguments in order, each
+    evaluated (cut to max_seq_len, comments dropped) - at every width, ribbon
+    and indent, string arguments included. *)
+From PP Require Import Sem Normalize Layout Render Pformat PyEval EvalRT StrBridge EndToEnd.
+Theorem C17_engine_output_performs_the_call :
+  forall (printable sp wd lb : N -> bool) (fuel ff : nat) (env : str -> option target),
+    env n_float = None -> env n_frozenset = None -> env n_set = None ->
+    forall (f : clsinfo) (args : list pyval) (kwargs : list (str * pyval)) (indent width rw : Z) (n : Z) (sort : bool)
+           (out : list sdoc),
+    (1 <= n)%Z -> wf_val (VCall f args kwargs) -> evaluable env (VCall f args kwargs) ->
+    sdocs_model printable sp wd lb fuel ff (VCall f args kwargs) indent width rw None n sort = Some out ->
+    exists e, Glue printable (rtoks (strip out) NNormal) (etoks e) /\
+              eval env e = Some (VCall f (map (norm n sort) args) (map (fun kv => (fst kv, norm n sort (snd kv))) kwargs)).
+Proof.
+  intros printable sp wd lb fuel ff env E1 E2 E3 f args kwargs indent width rw n sort out Hn Hw He H.
+  destruct (engine_output_evaluates printable sp wd lb fuel ff env E1 E2 E3 (VCall f args kwargs) indent width rw n sort out
+              Hn Hw He H) as (e & G & Ev).
+  exists e. split; [exact G|]. rewrite Ev. reflexivity.
+Qed.
+Print Assumptions C17_engine_output_performs_the_call.
